@@ -308,18 +308,11 @@ def _table_obligations(tier):
         ob(f"{q}::table.header_codec_resolution", got_tx is want and got_rx is want,
            f"v{ver} uses {got_tx.__name__}/{got_rx.__name__}", {"version": ver, "tx": got_tx.__name__, "rx": got_rx.__name__})
         ob(f"{q}::table.version_constant", cls.VERSION == ver, f"VERSION={cls.VERSION}", {"version": ver, "VERSION": cls.VERSION})
-    # COMMANDS_BY_ID is built as the inverse of COMMANDS
-    import ast as _ast
-
-    from pyvc import source
-
-    node, _m, _h = source.find_function("bellows.ezsp.protocol.ProtocolHandler.__init__")
-    src = [_ast.unparse(s.value) for s in _ast.walk(node) if isinstance(s, _ast.Assign)
-           and any(_ast.unparse(t_) == "self.COMMANDS_BY_ID" for t_ in s.targets)]
-    want_src = "{cmd_id: (name, tx_schema, rx_schema) for name, (cmd_id, tx_schema, rx_schema) in self.COMMANDS.items()}"
-    ob("bellows.ezsp.protocol.ProtocolHandler.__init__::table.by_id_is_inverse", src == [want_src], str(src)[:200], {"source": src})
+    out.extend(by_id_obligations(tier))
     return out
 
+
+from contracts.tables import by_id_obligations  # noqa: E402
 
 _index.extra("C07")(_table_obligations)
 
